@@ -232,7 +232,18 @@ pub fn record(o: &Opts) -> Res<()> {
                     Err(m) => out.ev(json!({"ev": "HostPanic", "where": "sparse::load", "msg": m})),
                 }
             } else if roll < 73 && want("set") {
-                let kv: Vec<(B32, Vec<u8>)> = { let mut v: Vec<_> = map.iter().map(|(k, v)| (*k, v.clone())).collect(); v.shuffle(&mut rng); v };
+                // the set as a WRITE HISTORY: every other time it starts with 25-60 stale writes to keys of the map (other values) -
+                // the last write of a key wins, so the tree is that of the map; sets beyond 20 entries with repeated keys included
+                let kv: Vec<(B32, Vec<u8>)> = {
+                    let mut v: Vec<_> = map.iter().map(|(k, v)| (*k, v.clone())).collect();
+                    v.shuffle(&mut rng);
+                    if !v.is_empty() && rng.gen_bool(0.5) {
+                        let n = rng.gen_range(25..60);
+                        let mut stale: Vec<(B32, Vec<u8>)> = (0..n).map(|_| { let (k, _) = v.choose(&mut rng).unwrap().clone(); (k, rvalue(&mut rng)) }).collect();
+                        stale.extend(v);
+                        stale
+                    } else { v }
+                };
                 let kvj = Value::Array(kv.iter().map(|(k, v)| json!([hx(k), hx(v)])).collect());
                 let set = || kv.iter().map(|(k, v)| (mk(k), v.clone()));
                 out.ev(json!({"ev": "RootFromSet", "kv": kvj, "root": hx(in_memory::MerkleTree::root_from_set(set()))}));
